@@ -216,3 +216,18 @@ Proof. intros Hc Hp. apply RepC_two_pass. eapply cov_tree_over_rep; eassumption.
 
 Lemma df_cov_two_pass parts : TwoPassC (df_cov_helper parts) (concat parts).
 Proof. apply RepC_two_pass, df_cov_rep. Qed.
+
+Lemma RepC_unique c c' ps : ps <> [] -> RepC c ps -> RepC c' ps -> c = c'.
+Proof.
+  intros Hne H H'. destruct (RepC_means _ _ H Hne) as [Hx Hy]. destruct (RepC_means _ _ H' Hne) as [Hx' Hy'].
+  destruct H as [Hn _ _ Hck Hmx Hmy]. destruct H' as [Hn' _ _ Hck' Hmx' Hmy'].
+  destruct c as [n xa ya ck mkx mky]. destruct c' as [n' xa' ya' ck' mkx' mky'].
+  cbn [cc_n cc_xavg cc_yavg cc_ck cc_mkx cc_mky] in *. subst. reflexivity.
+Qed.
+
+Lemma cov_merge_order_irrelevant (t t' : mtree (R * R)) :
+  Permutation (tdata t) (tdata t') -> tdata t <> [] -> tree_cov t = tree_cov t'.
+Proof.
+  intros P Hne. apply (RepC_unique _ _ (tdata t) Hne); [apply cov_tree_rep|].
+  eapply RepC_perm; [apply Permutation_sym, P | apply cov_tree_rep].
+Qed.
